@@ -225,25 +225,28 @@ CHECKS = {
         "runs": parruns(["VxC12_Soup_Start3", "VxC12_Script2q"], ["VxC12_Soup_Start4", "VxC12_Soup_Semi4", "VxC12_Script2", "VxC12_Script3", "VxC12_Soup_Semi3"], ["C12.iff", "C12.no_loss", "C12.one_error_per_malformed"], generic=["unwind"]),
     },
     "C13": {
-        "bounds": {"quick": "every failing path of the C01 runs (same bounds): tokenizer errors and low-level parser errors", "thorough": "same as C01 thorough"},
+        "bounds": {"quick": "every failing path of the C01 runs (same bounds, including every truncation of the 34-statement corpus): tokenizer errors and low-level parser errors", "thorough": "same as C01 thorough"},
         "outside": "wording of messages and hints; errors of the gosqlx wrappers (checked by C07 harness); reproducibility across Go map iteration order",
         "assumptions": ["documented code families: E1xxx tokenizer, E2xxx parser"],
-        "runs": tokruns(["C13.tok_structured", "C13.tok_family"], ["VxC04_All2", "VxC04_Lex3"], ["VxC04_All3", "VxC04_Lex4"]) + parruns(["VxSoup_Start2", "VxSoup_Select2", "VxSoup_From2", "VxSoup_Where2"], ["VxSoup_Start3", "VxSoup_Select3", "VxSoup_From3", "VxSoup_Where3"], ["C13.structured", "C13.family"]),
+        "runs": tokruns(["C13.tok_structured", "C13.tok_family"], ["VxC04_All2", "VxC04_Lex3"], ["VxC04_All3", "VxC04_Lex4"]) + parruns(["VxSoup_Start2", "VxSoup_Select2", "VxSoup_From2", "VxSoup_Where2", "VxSoup_Cut0"], ["VxSoup_Cut1", "VxSoup_Start3", "VxSoup_Select3", "VxSoup_From3", "VxSoup_Where3"], ["C13.structured", "C13.family"]),
     },
     "C04": {
-        "bounds": {"quick": "all byte strings of length <= 2 over all 256 byte values; length <= 3 over the 24-symbol lexical alphabet; length <= 5 over the comment alphabet {- / * \\n a space}",
+        "bounds": {"quick": "all byte strings of length <= 2 over all 256 byte values; length <= 3 over the 24-symbol lexical alphabet; length <= 5 over the comment alphabet {- / * \\n a space}; word slots: 13 first words (the ten multi-word keyword starts in mixed case, an identifier, SELECT, LEFTY) x <= 2 symbolic separator bytes over {space \\n - ,} x 10 second words (BY, JOIN, SETS, OUTER, x, BYE, 1, none) x <= 1 separator byte x 3 third words",
                    "thorough": "length <= 3 over all byte values; length <= 4 over the lexical alphabet; length <= 7 over the comment alphabet"},
-        "outside": "longer inputs; code points above U+00FF other than the representative set of DESIGN.md 5.3; compound keywords and keywords of 5+ letters in the byte harnesses",
+        "outside": "longer inputs; code points above U+00FF other than the representative set of DESIGN.md 5.3; keywords of 5+ letters with symbolic letters (multi-word keywords are covered by the word-slot harness with concrete spellings)",
         "assumptions": ["reference lexer (harness/pkg/sql/tokenizer/reflex.go) is the oracle for the core lexical grammar; it answers don't-know elsewhere",
                         "unicode predicates on symbolic runes above U+00FF are restricted to a representative set (stated bound)",
                         "time.Now/metrics are stubs; sync.Pool is a LIFO stack"],
-        "runs": tokruns(["C04.eof_last", "C04.kind", "C04.value"], ["VxC04_All2", "VxC04_Lex3", "VxC04_Cmt5"], ["VxC04_All3", "VxC04_Lex4", "VxC04_Cmt7"]),
+        "runs": tokruns(["C04.eof_last", "C04.kind", "C04.value"], ["VxC04_All2", "VxC04_Lex3", "VxC04_Cmt5", "VxC04_Words2"], ["VxC04_All3", "VxC04_Lex4", "VxC04_Cmt7", "VxC04_Words2"]),
     },
     "C05": {
-        "bounds": {"quick": "token/comment positions for all byte strings of length <= 2 (all bytes), <= 3 (lexical alphabet), <= 5 (comment alphabet), <= 4 (position alphabet {a 1 ' - / * space tab \\n \\r})",
-                   "thorough": "length <= 3 all bytes; <= 4 lexical; <= 7 comment; <= 5 position alphabet"},
-        "outside": "exact columns are asserted for tab-free ASCII input only (tabs/multi-byte: ordering and containment only); parser error locations are judged by the parser harness",
+        "bounds": {"quick": "token/comment positions for all byte strings of length <= 2 (all bytes), <= 3 (lexical alphabet), <= 5 (comment alphabet), <= 4 (position alphabet {a 1 ' - / * space tab \\n \\r}); the word-slot inputs of C04 (multi-word keywords across spaces and newlines); parser side: the converter's position mapping is index-aligned with the parser tokens and Parser.currentLocation reads the right entry, for every sequence of <= 3 symbolic tokenizer tokens from a 27-row table that includes every multi-word keyword",
+                   "thorough": "length <= 3 all bytes; <= 4 lexical; <= 7 comment; <= 5 position alphabet; mapping for <= 4 tokens"},
+        "outside": "exact columns are asserted for tab-free ASCII input only (tabs/multi-byte: ordering and containment only); which token a parser error is attributed to (only that the attributed token's location is the right one)",
         "assumptions": ["expected positions are computed from the reference lexer's byte offsets"],
-        "runs": tokruns(["C05.start", "C05.end", "C05.one_based"], ["VxC04_All2", "VxC04_Lex3", "VxC04_Cmt5", "VxC04_Pos4"], ["VxC04_All3", "VxC04_Lex4", "VxC04_Cmt7", "VxC04_Pos5"]),
+        "runs": tokruns(["C05.start", "C05.end", "C05.one_based"], ["VxC04_All2", "VxC04_Lex3", "VxC04_Cmt5", "VxC04_Pos4", "VxC04_Words2"], ["VxC04_All3", "VxC04_Lex4", "VxC04_Cmt7", "VxC04_Pos5", "VxC04_Words2"]) + [
+            {"pkg": PAR, "harness": "VxC05_Mapping3", "tiers": ["quick"], "expect_asserts": ["C05.mapping_aligned", "C05.mapping_span", "C05.parser_location"]},
+            {"pkg": PAR, "harness": "VxC05_Mapping4", "tiers": ["thorough"], "expect_asserts": ["C05.mapping_aligned", "C05.mapping_span", "C05.parser_location"]},
+        ],
     },
 }
